@@ -33,7 +33,9 @@ type c20SH struct {
 	methods  map[int]string
 }
 
-func newC20SH(name string) *c20SH { return &c20SH{name: name, events: map[int][]string{}, methods: map[int]string{}} }
+func newC20SH(name string) *c20SH {
+	return &c20SH{name: name, events: map[int][]string{}, methods: map[int]string{}}
+}
 
 func (s *c20SH) TagRPC(ctx context.Context, info *stats.RPCTagInfo) context.Context {
 	s.next++
@@ -382,7 +384,7 @@ func c20Stats(nsh, bound int) *explore.Scenario {
 			}
 			var plan []outcome
 			for _, k := range []string{"Unary", "Bidi", "SStream", "CStream"} {
-				for _, o := range []string{"ok", "herr", "herr-eof", "herr-wrapped-eof", "herr-plain", "herr-canceled", "cancel1", "cancel3", "deadline", "openfail", "reset", "lateempty", "sendfail"} {
+				for _, o := range []string{"ok", "herr", "herr-eof", "herr-wrapped-eof", "herr-plain", "herr-canceled", "herr-ok-coded", "cancel1", "cancel3", "deadline", "openfail", "reset", "lateempty", "sendfail"} {
 					if k == "Unary" && (o == "reset" || o == "lateempty" || o == "sendfail") {
 						continue
 					}
